@@ -236,4 +236,19 @@ theorem InvK.limits {s : State} (k : InvK s) : LimitsHold s :=
   ⟨by have := k.1 .inb; simp only [Cfg.max] at this; omega, fun ip => by have := k.2 ip; omega,
     by have := k.1 .outb; simp only [Cfg.max] at this; omega⟩
 
+/-! ### Without a repeated `Close()` the controller before 471ac830 was the present one -/
+
+theorem stepStaleHist_eq_of_not_stale {s : State} {i : Nat} (h : staleStep s i = false) :
+    stepStaleHist s i = step s i := by
+  simp [stepStaleHist, h]
+
+theorem runStaleHist_eq_of_staleFree {s : State} {sched : List Nat} (h : StaleFreeRun s sched) :
+    runStaleHist s sched = run s sched := by
+  induction sched generalizing s with
+  | nil => rfl
+  | cons i r ih =>
+    show runStaleHist (stepStaleHist s i) r = run (step s i) r
+    rw [stepStaleHist_eq_of_not_stale h.1]
+    exact ih h.2
+
 end OntVerif.Proofs.ConnCtl
